@@ -155,9 +155,12 @@ def gen_history(cat, prop, seed, h, tier):
             ops.append({"k": "threads", "n": rng.choice([1, 2, 16])})
         elif r < 0.978:
             ops.append({"k": "restart"})
+        elif tier == "thorough" and r < 0.99 and ids_all:
+            ops.append({"k": "interrupt", "e": rng.choice(ids_all), "at": 1 + min(int(rng.expovariate(1 / 35.0)), 220)})
         elif ids_all and (tier == "thorough" or rng.random() < 0.6):
             # interrupted call (KeyboardInterrupt at the k-th xrspatial line event), then the same call again
-            ops.append({"k": "interrupt", "e": rng.choice(ids_all), "at": rng.randint(1, 40)})
+            # wrappers execute 10..150 xrspatial line events (helpers like get_dataarray_resolution count)
+            ops.append({"k": "interrupt", "e": rng.choice(ids_all), "at": 1 + min(int(rng.expovariate(1 / 35.0)), 220)})
         else:
             push_call(rng.choice(ids_all))
     for _ in pending:
